@@ -105,7 +105,9 @@ def strip_comments(text):
 
 
 def norm(text):
-    return re.sub(r"\s+", " ", text).strip()
+    """token-level normal form: white space only survives between two identifier characters"""
+    t = re.sub(r"\s+", " ", text).strip()
+    return re.sub(r"(?<![A-Za-z0-9_]) | (?![A-Za-z0-9_])", "", t)
 
 
 def block_after(text, start):
@@ -150,6 +152,7 @@ def switch_groups(stage):
     sw, end = block_after(body, m.end() - 1)
     assert norm(body[end:]) == "", "statements after the switch: %r" % norm(body[end:])[:200]
     assert norm(body[:m.start()]).startswith("debugs(") and norm(body[:m.start()]).count(";") == 1, "statements before the switch"
+    # (the debugs() text contains no ';')
     # labels at depth 0 of the switch block
     groups, labels, cur, depth, i, n = [], [], [], 0, 0, len(sw)
     lab = re.compile(r"(case\s+Http::HdrType::(\w+)\s*:|default\s*:)")
@@ -200,7 +203,7 @@ def switch_groups(stage):
 
 def classify(stmts):
     for k, t in BODIES.items():
-        if stmts == t:
+        if stmts == norm(t):
             return k
     return 0
 
@@ -253,7 +256,7 @@ def generate(stage):
     facts = {}
     for name, (path, hdr, stmt) in REPLY_FACTS.items():
         try:
-            facts[name] = stmt in norm(function_body(stage.read(path), hdr))
+            facts[name] = norm(stmt) in norm(function_body(stage.read(path), hdr))
         except AssertionError:
             facts[name] = False
     text = """-- GENERATED by translate/hop_by_hop.py (do not edit): data for the C04 model.
